@@ -60,6 +60,30 @@ def rot_guard(rows):
     return scanned, unknown, stale
 
 
+# ------------------------------------------------------------------ generated C++ headers vs the spec's enum tables
+def check_headers(run, enums):
+    """The generated C/C++ bindings (temporal_capi/bindings/cpp) must declare every converted enum with the variant
+    names and discriminants of the spec's enum table (a stale header makes C++ callers pass the wrong variant)."""
+    d = os.path.join(lib.REPO, "temporal_capi", "bindings", "cpp", "temporal_rs")
+    checked = 0
+    for e in enums:
+        f = os.path.join(d, e["enum"] + ".d.hpp")
+        if not os.path.exists(f):
+            log(f"WARNING: no generated header for enum {e['enum']} under {d}")
+            continue
+        txt = open(f).read()
+        m = re.search(r"enum\s+%s\s*\{(.*?)\}" % re.escape(e["enum"]), txt, re.S)
+        got = re.findall(r"%s_(\w+)\s*=\s*(-?\d+)" % re.escape(e["enum"]), m.group(1)) if m else []
+        got = [[n, int(v)] for n, v in got]
+        checked += 1
+        if got != e["variants"]:
+            run.mismatches.append(dict(op="Header.enum." + e["enum"], cls="capi.enum." + e["enum"] + "/cpp-header", direction="header",
+                                       expected=dict(kind="ok", val=e["variants"]), observed=dict(kind="ok", val=got), source=os.path.relpath(f, lib.REPO)))
+    run.cov["cpp_header_enums_checked"] = checked
+    run.cov["evaluations"] += checked
+    log(f"[headers] {checked} generated C++ enum declarations compared with the spec's enum tables")
+
+
 # ------------------------------------------------------------------ TLC output
 def parse_lines(path, tag):
     out = []
@@ -185,6 +209,16 @@ def run(run):
         raise ToolError("table-rot guard: public functions unknown to the method table of spec/Wrappers.tla (add a row or an Excluded entry): "
                         + ", ".join(f"{n_} ({w})" for n_, w in unknown))
     log(f"[rot-guard] {len(scanned)} pub fns scanned in src/builtins/compiled and temporal_capi/src: all known to the method table")
+
+    check_headers(run, enums)
+
+    # ---- model negative control: a primary receiver with colliding fields must violate DistinctFields
+    rc, txt, outp, dt = run._tlc(os.path.join(lib.SPEC, "mc/MC_Wrappers.tla"), os.path.join(lib.SPEC, "mc/MC_Wrappers_negdistinct.cfg"), 1, 300, tag="negdistinct")
+    bad = "Invariant DistinctFields is violated" in txt
+    run.cov["negative_controls"].append(dict(kind="model", control="colliding-fields receiver violates DistinctFields", detected=bad))
+    if not bad:
+        raise ToolError(f"model negative control: DistinctFields did not reject a receiver with colliding fields; see {outp}")
+    log("[negctl] model: receiver with colliding fields rejected by DistinctFields")
 
     # ---- spec -> impl
     total, mm = replay(run, b, cases, tier)
